@@ -58,7 +58,10 @@ RULE_ADDED = (
               'Round 16: signing runs over longer files left by an earlier run. '
               ' '
               'Round 17: images in a directory literally named ~ (or ~root), HOME holding other'
-              ' images under the same names. ')
+              ' images under the same names. '
+              ' '
+              'Round 19: one image in six with its areas in two or three regions far apart, on '
+              'both sides of 2^31 / 2^24 / 2^20. ')
 RULE = RULE + " " + RULE_ADDED.strip()
 ASSUMPTIONS = [
     "own Intel-HEX writer (pv/gen/ihex.py); areas do not overlap",
@@ -339,6 +342,8 @@ def run_case_(acc, cseed, tmpdir, state):
         images.append((p, areas, want))
         acc.evaluations += 1
         zones = len({(s + k) >> 16 for (s, d) in areas for k in (0, len(d) - 1)})
+        if len({s >> 31 for (s, d) in areas}) == 2:
+            acc.count("images_with_areas_on_both_sides_of_2^31")
         acc.distinct.add("%d|%d|%s|%d" % (len(areas), zones, shuffled, nimg))
         for path, lab in ((p, "as-written"), (p2, "other-record-layout")):
             acc.count("hashes_compared")
